@@ -250,40 +250,7 @@ func runC19(c *engine.Ctx) {
 	}
 
 	// ---- R3 ----
-	c.Rule("R3", "Wrapper.InWorkConn hands the connection to the proxy only in phase Running; otherwise it is closed")
-	if f := fn(c, "client/proxy.Wrapper.InWorkConn"); f != nil {
-		phaseF := field(c, "client/proxy", "WorkingStatus", "Phase")
-		inWC := method(c, "client/proxy", "Proxy", "InWorkConn")
-		n = 0
-		engine.ForEachInstr(f, func(in ssa.Instruction) {
-			if !engine.IsCallTo(in, inWC) {
-				return
-			}
-			n++
-			c.AllPaths("client/proxy.Wrapper.InWorkConn>dispatch", engine.PathCheck{Fn: f, Sink: engine.Is(in), Pred: func(st *engine.PathState) string {
-				eq, k := st.Equal(loadOfField(phaseF), func(v ssa.Value) bool { s, ok := engine.ConstString(v); return ok && s == "running" })
-				if !(k && eq) {
-					return "a work connection is accepted on a path where the phase was not found to be Running (a stopped or withdrawn proxy keeps serving)"
-				}
-				return ""
-			}}, "dispatch only while running")
-		})
-		n++
-		c.AllPaths("client/proxy.Wrapper.InWorkConn>else-closed", engine.PathCheck{Fn: f, Sink: engine.IsReturn,
-			Event: func(in ssa.Instruction) string {
-				if engine.IsCallTo(in, inWC) {
-					return "dispatch"
-				}
-				return closeOfParam("workConn")(in)
-			},
-			Pred: func(st *engine.PathState) string {
-				if !st.HasEvent("dispatch") && !st.HasEvent("close") {
-					return "a work connection that is not dispatched is left open"
-				}
-				return ""
-			}}, "not dispatched ⇒ closed")
-		c.Floor(n, 2)
-	}
+	checkInWorkConnDispatch(c, "R3")
 
 	// ---- R4 phase transitions ----
 	c.Rule("R4", "every store of a phase constant to WorkingStatus.Phase happens on paths that restrict the current phase to the legal predecessors of that constant")
@@ -313,29 +280,12 @@ func runC19(c *engine.Ctx) {
 	checkLocalStartFailure(c, "R9")
 	checkConfigNotWritten(c, "R10")
 	checkWorkerEndsOnOwnCtx(c, "R11")
+	// ---- R12 a close sent right behind a registration closes it (shared with C16.R28) ----
+	checkSyncStateHandlers(c, "R12")
+	checkRefusedReloadKeepsConfig(c, "R13")
 
 	// ---- R8 ----
-	c.Rule("R8", "every event the proxy wrapper sends to the control (start-proxy, close-proxy) is sent while Wrapper.mu is held: the phase decision and the message it causes cannot be separated by a concurrent Stop, so a stopped proxy sends no further registration")
-	n = 0
-	if hF := field(c, "client/proxy", "Wrapper", "handler"); hF != nil {
-		muF := field(c, "client/proxy", "Wrapper", "mu")
-		for _, f := range p.RepoFuncs() {
-			engine.ForEachInstr(f, func(in ssa.Instruction) {
-				call, ok := in.(ssa.CallInstruction)
-				if !ok || call.Common().IsInvoke() {
-					return
-				}
-				if lf, _ := engine.LoadedField(call.Common().Value); lf != hF {
-					return
-				}
-				n++
-				held := li.HeldAt(in)
-				c.Check(muF != nil && held[muF] > 0, fmt.Sprintf("%s>event-under-lock#%d", p.FuncName(f), n), in.Pos(), 1, []string{"held: " + strings.Join(held.Names(), ",")},
-					"the event is sent with Wrapper.mu held")
-			})
-		}
-	}
-	c.Floor(n, 2)
+	checkEventsUnderLock(c, li, "R8")
 }
 
 // checkConfigReadPerAttempt (C19.R7; the same obligation is part of C14.R5): the proxy and visitor configurations a new
@@ -890,4 +840,116 @@ func phaseStoreOf(in ssa.Instruction, phaseF *types.Var, setters map[*ssa.Functi
 		}
 	}
 	return "", false
+}
+
+// checkInWorkConnDispatch (C19.R3, shared with C01.R17): a work connection the client wrapper does not dispatch is closed
+// (the server has already joined it to a user connection, which would hang otherwise).
+func checkInWorkConnDispatch(c *engine.Ctx, rule string) {
+	c.Rule(rule, "Wrapper.InWorkConn hands the connection to the proxy only in phase Running; otherwise it is closed")
+	if f := fn(c, "client/proxy.Wrapper.InWorkConn"); f != nil {
+		phaseF := field(c, "client/proxy", "WorkingStatus", "Phase")
+		inWC := method(c, "client/proxy", "Proxy", "InWorkConn")
+		n := 0
+		engine.ForEachInstr(f, func(in ssa.Instruction) {
+			if !engine.IsCallTo(in, inWC) {
+				return
+			}
+			n++
+			c.AllPaths("client/proxy.Wrapper.InWorkConn>dispatch", engine.PathCheck{Fn: f, Sink: engine.Is(in), Pred: func(st *engine.PathState) string {
+				eq, k := st.Equal(loadOfField(phaseF), func(v ssa.Value) bool { s, ok := engine.ConstString(v); return ok && s == "running" })
+				if !(k && eq) {
+					return "a work connection is accepted on a path where the phase was not found to be Running (a stopped or withdrawn proxy keeps serving)"
+				}
+				return ""
+			}}, "dispatch only while running")
+		})
+		n++
+		c.AllPaths("client/proxy.Wrapper.InWorkConn>else-closed", engine.PathCheck{Fn: f, Sink: engine.IsReturn,
+			Event: func(in ssa.Instruction) string {
+				if engine.IsCallTo(in, inWC) {
+					return "dispatch"
+				}
+				return closeOfParam("workConn")(in)
+			},
+			Pred: func(st *engine.PathState) string {
+				if !st.HasEvent("dispatch") && !st.HasEvent("close") {
+					return "a work connection that is not dispatched is left open"
+				}
+				return ""
+			}}, "not dispatched ⇒ closed")
+		c.Floor(n, 2)
+	}
+}
+
+// checkEventsUnderLock (C19.R8, shared as C18.R19): the registration message the server reconstructs the proxy from is
+// built and queued in the critical section that decided to send it.
+func checkEventsUnderLock(c *engine.Ctx, li *engine.LockInfo, rule string) {
+	p := c.P
+	n := 0
+	c.Rule(rule, "every event the proxy wrapper sends to the control (start-proxy, close-proxy) is sent while Wrapper.mu is held: the phase decision and the message it causes cannot be separated by a concurrent Stop, so a stopped proxy sends no further registration")
+	if hF := field(c, "client/proxy", "Wrapper", "handler"); hF != nil {
+		muF := field(c, "client/proxy", "Wrapper", "mu")
+		for _, f := range p.RepoFuncs() {
+			engine.ForEachInstr(f, func(in ssa.Instruction) {
+				call, ok := in.(ssa.CallInstruction)
+				if !ok || call.Common().IsInvoke() {
+					return
+				}
+				if lf, _ := engine.LoadedField(call.Common().Value); lf != hF {
+					return
+				}
+				n++
+				held := li.HeldAt(in)
+				c.Check(muF != nil && held[muF] > 0, fmt.Sprintf("%s>event-under-lock#%d", p.FuncName(f), n), in.Pos(), 1, []string{"held: " + strings.Join(held.Names(), ",")},
+					"the event is sent with Wrapper.mu held")
+			})
+		}
+	}
+	c.Floor(n, 2)
+}
+
+// checkRefusedReloadKeepsConfig (R13): the configuration the client registers after its next (re-)login is the one stored
+// in Service.proxyCfgs / visitorCfgs. A reload that UpdateAllConfigurer refuses with an error of its own making must not
+// have stored the refused set: otherwise the running proxies stay as they are, and the refused set comes into force
+// at the next reconnect.
+func checkRefusedReloadKeepsConfig(c *engine.Ctx, rule string) {
+	c.Rule(rule, "Service.UpdateAllConfigurer: on every path to a return whose error is known to be non-nil (an error built or selected in the function), Service.proxyCfgs / visitorCfgs have not been written")
+	f := fn(c, "client.Service.UpdateAllConfigurer")
+	pcF := field(c, "client", "Service", "proxyCfgs")
+	vcF := field(c, "client", "Service", "visitorCfgs")
+	if f == nil || pcF == nil || vcF == nil {
+		return
+	}
+	stores := 0
+	engine.ForEachInstr(f, func(in ssa.Instruction) {
+		if st, ok := in.(*ssa.Store); ok {
+			if lf, _ := engine.LoadedField(st.Addr); lf == pcF || lf == vcF {
+				stores++
+			}
+		}
+	})
+	c.AllPaths("client.Service.UpdateAllConfigurer>refusal-keeps-config", engine.PathCheck{Fn: f, Sink: engine.IsReturn,
+		Event: func(in ssa.Instruction) string {
+			if st, ok := in.(*ssa.Store); ok {
+				if lf, _ := engine.LoadedField(st.Addr); lf == pcF || lf == vcF {
+					return "stored"
+				}
+			}
+			return ""
+		},
+		Pred: func(st *engine.PathState) string {
+			r := st.Sink.(*ssa.Return)
+			if len(r.Results) == 0 || !st.HasEvent("stored") {
+				return ""
+			}
+			ev := st.Resolve(r.Results[len(r.Results)-1])
+			if engine.IsNilConst(ev) {
+				return ""
+			}
+			if isNil, known := st.NilFact(ev); known && !isNil {
+				return "the reload is refused (an error is returned) after the new set was stored in the service: it takes effect at the next reconnect although it was rejected"
+			}
+			return ""
+		}}, "refused ⇒ nothing stored")
+	c.Floor(stores, 1)
 }
